@@ -358,7 +358,7 @@ def run(ctx):
     except vf.BuildFailure as e:
         ctx.violation('tie-break:cx_bool', 'boolean harness no longer builds: %s' % str(e)[-600:], replay=dict(error=str(e)[-2000:]), nofail=True)
         return
-    n = 420 if ctx.quick else 2400
+    n = 420 if ctx.quick else 1600
     G = 20 if ctx.quick else 40
     broken = not pr['ok']
     if broken:
